@@ -1112,8 +1112,14 @@ def oracle_C15(an):
             continue
         if any(e[0] == "L" and e[1] != 0 for e in an.ev[li + 1][:1]):
             continue
-        # new stimulus can also come from a byte that was refused before (r=0) and is delivered now
+        # new stimulus can also come from a byte that was refused before (r=0) and is delivered now; a byte that the call
+        # reporting OK could have had (reads allowed, nothing fed in between) is not new stimulus: OK was reported with input pending
         if any(e[0] == "R" and e[1] is not None for e in an.ev[li + 1]):
+            t = an.optext[oa].split()
+            rd_allowed = (t[0] == "svc" and t[1] == "1") or (t[0] == "drain" and t[2] == "1")
+            if rd_allowed:
+                v.append("cat_service returned OK at call %s with a byte waiting in the input (reads allowed, nothing fed since): the repeated call %s read %r and returned %d"
+                         % (l.op, n.op, [e[1] for e in an.ev[li + 1] if e[0] == "R"], n.ret))
             continue
         if any(e[0] == "U" and e[1] != 0 for e in an.ev[li + 1][-1:]):
             continue
